@@ -18,22 +18,24 @@ Section Regrid.
   Variable stale : base -> opts -> pos.   (* whatever a region that is NOT regridded keeps (unconstrained) *)
   Variable derive : base -> pos -> pos -> geom.
   Variable f_eq f_class : factory.        (* the Equilibrium's factory (defaults updated from user_options) and the class-level one *)
-  Variable b : base.
+  Variable b : base.                  (* the skeleton (separatrix contours, fine contours, orthogonal spacing functions, end points) as built from the ORTHOGONAL options *)
+  Variable skeleton : opts -> base.   (* ... and what it would be if its construction read the region's non-orthogonal options of build time *)
 
   Definition f_region : factory := if region_factory_shared then f_eq else f_class.
 
   (* rz_reused: the R-Z array objects have already been collected by a geometry() call (BoutMesh.geometry then finds the attributes it
      wrote into the first region's arrays and, unless it copies them, raises) *)
-  Record mesh := { contour : pos; reg_opts : opts; rz : option pos; rz_reused : bool; geo : option geom }.
+  Record mesh := { bs : base; contour : pos; reg_opts : opts; rz : option pos; rz_reused : bool; geo : option geom }.
 
   (* Equilibrium.__init__ + EquilibriumRegion.__init__ + Mesh construction *)
   Definition build (s : settings) : mesh :=
     let o := create f_eq s in
     let ro := if region_options_from_equilibrium then create f_region (dict o) else create f_region s in
-    {| contour := place b ro; reg_opts := ro; rz := None; rz_reused := false; geo := None |}.
+    let sk := if skeleton_ignores_nonorthogonal_settings then b else skeleton ro in
+    {| bs := sk; contour := place sk ro; reg_opts := ro; rz := None; rz_reused := false; geo := None |}.
 
   Definition calculateRZ (m : mesh) : mesh :=
-    {| contour := contour m; reg_opts := reg_opts m; rz := (if calculateRZ_refills_all then Some (contour m) else rz m);
+    {| bs := bs m; contour := contour m; reg_opts := reg_opts m; rz := (if calculateRZ_refills_all then Some (contour m) else rz m);
        rz_reused := (if calculateRZ_refills_all then false else rz_reused m); geo := geo m |}.
 
   (* Mesh.redistributePoints(s) *)
@@ -43,8 +45,8 @@ Section Regrid.
     let ro := if distribute_resets_first && region_reset_fresh then create f_region s else ro1 in
     let c := if redistribute_all_regions && distribute_no_early_return && distribute_regrids_every_contour
                 && distribute_keeps_sfunc_orthogonal && sfunc_orthogonal_written_at_build_only
-             then place b ro else stale b ro in
-    let m' := {| contour := c; reg_opts := ro; rz := rz m; rz_reused := rz_reused m; geo := geo m |} in
+             then place (bs m) ro else stale (bs m) ro in
+    let m' := {| bs := bs m; contour := c; reg_opts := ro; rz := rz m; rz_reused := rz_reused m; geo := geo m |} in
     if redistribute_refreshes_RZ then calculateRZ m' else m'.
 
   (* Mesh.geometry() / BoutMesh.geometry(): calculates R-Z only when missing, then everything else from the contours and the R-Z arrays;
@@ -53,8 +55,8 @@ Section Regrid.
     let r := match rz m with Some r => r | None => contour m end in
     let reused := match rz m with Some _ => rz_reused m | None => false end in
     if reused && negb geometry_reentrant then None else
-    Some {| contour := contour m; reg_opts := reg_opts m; rz := Some r; rz_reused := true;
-       geo := if geometry_recomputes_all then Some (derive b (contour m) r) else match geo m with Some g => Some g | None => Some (derive b (contour m) r) end |}.
+    Some {| bs := bs m; contour := contour m; reg_opts := reg_opts m; rz := Some r; rz_reused := true;
+       geo := if geometry_recomputes_all then Some (derive (bs m) (contour m) r) else match geo m with Some g => Some g | None => Some (derive (bs m) (contour m) r) end |}.
 
   Inductive op := Redistribute (s : settings) | CalculateRZ | Geometry.
   Definition step (m : option mesh) (o : op) : option mesh :=
